@@ -68,11 +68,13 @@ PROPS = {
     "C15": {"level": "exploration", "assumptions": TRUST + ["page protection detects stray writes anywhere in an input and reads outside it only up to the adjacent guard page"],
             "rule": "case = (config, length): data and every input fragment / index list placed in its own mapping, read-only during the call, end-pinned or start-pinned against a PROT_NONE page (or 16-aligned with <=15 bytes slack); "
                     "encode, decode (with data loss, shuffled, duplicates), reconstruct (erased and available destination), get_fragment_metadata, is_invalid_fragment, verify_stripe_metadata, fragments_needed all run that way; encode output must equal the reference serializer and the first encode "
-                    "after random unrelated API histories, with other instances alive, and on 8 concurrent threads; additionally every erasure set |E|<hd of all 38 flat-XOR tables is decoded and reconstructed from write-protected end-pinned fragments (one aligned and one unaligned payload size); a SIGSEGV in a guarded region, a changed input or a differing output is a violation; non-trivial = every (erasure set, placement) and every re-encode; distinct = (config, length, erasure set, placement | history)",
+                    "after random unrelated API histories, with other instances alive, and on 8 concurrent threads; additionally every erasure set |E|<hd of all 38 flat-XOR tables is decoded and reconstructed from write-protected end-pinned fragments (one aligned and one unaligned payload size); a SIGSEGV in a guarded region, a changed input or a differing output is a violation; non-trivial = every (erasure set, placement) and every re-encode; distinct = (config, length, erasure set, placement | history); "
+                    "plus encode with each of its allocations failing once (plain build, ledger failpoint, forked child per site), its output variables NULL or still holding an earlier stripe of the caller: what the failing call does to the caller's memory does not depend on what the variables held, and the next encode gives the same bytes",
             "runs": [{"name": "plain-guard", "flavour": "plain", "driver": "drv_pure", "args": []},
                      {"name": "asan-guard", "flavour": "asan", "driver": "drv_pure", "args": []},
                      {"name": "asan-nosse-guard", "flavour": "asan-nosse", "driver": "drv_pure", "args": [], "shards": 8},
                      {"name": "threads", "flavour": "asan", "driver": "drv_pure", "args": ["--mode", "threads"], "shards": 4},
+                     {"name": "plain-oom-encode", "flavour": "plain", "driver": "drv_api_ledger", "args": ["--mode", "oomenc"]},
                      {"name": "plain-memcheck", "flavour": "plain", "driver": "drv_pure", "args": [], "wrapper": MEMCHECK, "driver_tier": "quick", "timeout": {"quick": 1800, "thorough": 7200}}]},
     "C14": api("C14", "exploration",
                "history + executable model: all canonical action sequences over <=4 slots with alphabet {create rs(4,2), rs(3,3), xor(5,5,3), null, rs(3,0), failed-create, destroy(dead), destroy(slot), use(slot)} up to depth 4 (quick) / 6 (thorough), each with and without a descriptor-counter preset (counter jumps to INT_MAX-1 after the second create so that the wrap lands on live descriptors); "
@@ -132,7 +134,9 @@ PROPS = {
                  exhaustive_scope="all 2^n subsets for every configuration with n<=10 (quick) / n<=15 (thorough); see counter configs_with_all_2^n_subsets"),
     "C03": codec("C03", "exploration",
                  "case = reconstruct_fragment(survivors of erasure set within tolerance, destination d) for every d in 0..n-1 plus out-of-range destinations; "
-                 "oracle = fragment kept from encode (all fragment_len bytes) / rc<0 for bad d; non-trivial = destination among the erased ones or out of range; distinct = (config, erasure set, destination)"),
+                 "oracle = fragment kept from encode (all fragment_len bytes) / rc<0 for bad d; non-trivial = destination among the erased ones or out of range; distinct = (config, erasure set, destination); "
+                 "plus reconstruct under allocation failure (plain build, ledger failpoint, forked child per allocation site of the call, flat-XOR P-xor-Q triples included): success means the kept fragment, anything else a negative code, and the next identical call is exact",
+                 extra_runs=[{"name": "plain-oom-reconstruct", "flavour": "plain", "driver": "drv_api_ledger", "args": ["--mode", "oomrec"]}]),
     "C04": codec("C04", "exploration",
                  "all 496 generators entry by entry vs closed form L_j(r)/L_j(k) over shift-and-xor GF(2^16); every k-subset of rows for n<=12/16 by the monitor's own elimination; "
                  "each generator asked for three times (another shape in between) and compared; parity payloads from the public encode vs model parity, also through a second instance of the same configuration; parity rebuilt with data lost vs model; non-trivial = every shape / stripe; distinct = (k,m) or (config,length)",
